@@ -215,33 +215,89 @@ func digestNamer(_ *types.Package, f *types.Func) string {
 				return true // error return
 			}
 			nonErr++
-			ce, ok := r0.(*ast.CallExpr)
-			if !ok {
-				why = "returns " + types.ExprString(r0) + ", not a formatted digest"
+			// the name is safe constants around exactly one hexadecimal rendering of a SHA-2 digest:
+			// Sprintf("…%x…", d), hex.EncodeToString(d[:]), fmt.Sprintf("%x", d) + ".ext", …
+			ldefs := singleDefs(pk, fd.Body)
+			safeRe := regexp.MustCompile(`^[A-Za-z0-9._-]*$`)
+			var dc *ast.CallExpr
+			nHex := 0
+			var digestOf func(e ast.Expr) *ast.CallExpr
+			digestOf = func(e ast.Expr) *ast.CallExpr {
+				for i := 0; i < 6; i++ {
+					e = chase(pk, ldefs, e)
+					if se, isSl := e.(*ast.SliceExpr); isSl && se.Low == nil && se.High == nil {
+						e = se.X
+						continue
+					}
+					break
+				}
+				c2, isCall := e.(*ast.CallExpr)
+				if !isCall {
+					return nil
+				}
+				h, _ := typeutil.Callee(pk.TypesInfo, c2).(*types.Func)
+				if h == nil || !(strings.HasPrefix(h.FullName(), "crypto/sha256.Sum") || strings.HasPrefix(h.FullName(), "crypto/sha512.Sum")) {
+					return nil
+				}
+				return c2
+			}
+			var part func(e ast.Expr) string
+			part = func(e ast.Expr) string {
+				if v, isC := constOf(pk, e); isC && v.isStr() {
+					if !safeRe.MatchString(v.str()) {
+						return fmt.Sprintf("constant %q is not file-name-safe", v.str())
+					}
+					return ""
+				}
+				switch x := e.(type) {
+				case *ast.ParenExpr:
+					return part(x.X)
+				case *ast.BinaryExpr:
+					if x.Op == token.ADD {
+						if w := part(x.X); w != "" {
+							return w
+						}
+						return part(x.Y)
+					}
+				case *ast.Ident:
+					if def, has := ldefs[objOf(pk, x)]; has {
+						return part(def)
+					}
+				case *ast.CallExpr:
+					g, _ := typeutil.Callee(pk.TypesInfo, x).(*types.Func)
+					if g == nil {
+						break
+					}
+					switch {
+					case g.FullName() == "fmt.Sprintf" && len(x.Args) == 2:
+						fv, isC := constOf(pk, x.Args[0])
+						if !isC || !fv.isStr() {
+							return "format is not constant"
+						}
+						if !regexp.MustCompile(`^[A-Za-z0-9._-]*%x[A-Za-z0-9._-]*$`).MatchString(fv.str()) {
+							return fmt.Sprintf("format %q is not `%%x` surrounded by file-name-safe characters", fv.str())
+						}
+						nHex++
+						if dc = digestOf(x.Args[1]); dc == nil {
+							return "the formatted value is not a SHA-2 digest"
+						}
+						return ""
+					case g.FullName() == "encoding/hex.EncodeToString" && len(x.Args) == 1:
+						nHex++
+						if dc = digestOf(x.Args[0]); dc == nil {
+							return "the encoded value is not a SHA-2 digest"
+						}
+						return ""
+					}
+				}
+				return "returns " + types.ExprString(e) + ", not a hexadecimal digest between file-name-safe constants"
+			}
+			if w := part(r0); w != "" {
+				why = w
 				return true
 			}
-			g, _ := typeutil.Callee(pk.TypesInfo, ce).(*types.Func)
-			if g == nil || g.FullName() != "fmt.Sprintf" || len(ce.Args) != 2 {
-				why = "returns " + types.ExprString(r0) + ", not Sprintf(format, digest)"
-				return true
-			}
-			fv, ok := constOf(pk, ce.Args[0])
-			if !ok || !fv.isStr() {
-				why = "format is not constant"
-				return true
-			}
-			if !regexp.MustCompile(`^[A-Za-z0-9._-]*%x[A-Za-z0-9._-]*$`).MatchString(fv.str()) {
-				why = fmt.Sprintf("format %q is not `%%x` surrounded by file-name-safe characters", fv.str())
-				return true
-			}
-			dc, ok := ce.Args[1].(*ast.CallExpr)
-			if !ok {
-				why = "the formatted value is not a digest call"
-				return true
-			}
-			h, _ := typeutil.Callee(pk.TypesInfo, dc).(*types.Func)
-			if h == nil || !(strings.HasPrefix(h.FullName(), "crypto/sha256.Sum") || strings.HasPrefix(h.FullName(), "crypto/sha512.Sum")) {
-				why = "the formatted value is not a SHA-2 digest"
+			if nHex != 1 || dc == nil {
+				why = "the name does not contain exactly one digest"
 				return true
 			}
 			// the digest input is the identifier parameter itself (conversion only) and that
@@ -296,7 +352,24 @@ func patternSafe(d *declInfo, e ast.Expr, defs map[types.Object]ast.Expr) bool {
 		if v, ok := constOf(d.pkg, x); ok {
 			return v.isStr() && !strings.ContainsAny(v.str(), "/\\")
 		}
-		return isDigestName(d, x, defs)
+		if isDigestName(d, x, defs) {
+			return true
+		}
+		if o := objOf(d.pkg, x); o != nil {
+			if def, has := defs[o]; has {
+				return patternSafe(d, def, defs)
+			}
+			// a pattern parameter of an internal helper: safe when every call site passes a safe one
+			if args, callers := paramBindings(d, o); len(args) > 0 {
+				for i, a := range args {
+					if !patternSafe(callers[i], a, singleDefs(callers[i].pkg, callers[i].fd.Body)) {
+						return false
+					}
+				}
+				return true
+			}
+		}
+		return false
 	case *ast.ParenExpr:
 		return patternSafe(d, x.X, defs)
 	}
@@ -513,8 +586,21 @@ func storeGuards(c *Ctx) {
 			switch x := n.(type) {
 			case *ast.BinaryExpr:
 				// `x.Id == ""`, `"" == x.GetId()`, `len(x.Id) == 0`: any spelling of "the identifier is empty"
-				if subj, empty, ok := emptinessTest(c, x); ok && empty && (strings.HasSuffix(subj, ".Id") || subj == "Id") {
-					hasID = true
+				if subj, empty, ok := emptinessTest(c, x); ok && empty {
+					if strings.HasSuffix(subj, ".Id") || subj == "Id" {
+						hasID = true
+					}
+					// the identifier bound to a local first: id := doc.GetMetadata().GetId(); if id == ""
+					for _, side := range []ast.Expr{x.X, x.Y} {
+						if ce, isCall := side.(*ast.CallExpr); isCall && len(ce.Args) == 1 {
+							side = ce.Args[0] // len(id)
+						}
+						if lid, isId := side.(*ast.Ident); isId {
+							if def, has := defs[objOf(d.pkg, lid)]; has && strings.HasSuffix(normText(types.ExprString(def)), ".Id") {
+								hasID = true
+							}
+						}
+					}
 				}
 			case *ast.SelectorExpr:
 				if x.Sel.Name == "NoClobber" {
